@@ -431,20 +431,12 @@ impl SwarmDriver {
                             publisher: None,
                             expires: None,
                         };
-                        for sender in senders {
-                            let new_accumulated_record = new_accumulated_record.clone();
-
-                            sender
-                                .send(Ok(new_accumulated_record))
-                                .map_err(|_| NetworkError::InternalMsgChannelDropped)?;
-                        }
+                        Self::send_to_all(senders, Ok(new_accumulated_record))?;
                     } else {
-                        for sender in senders {
-                            let result_map = result_map.clone();
-                            sender
-                                .send(Err(GetRecordError::SplitRecord { result_map }))
-                                .map_err(|_| NetworkError::InternalMsgChannelDropped)?;
-                        }
+                        Self::send_to_all(
+                            senders,
+                            Err(GetRecordError::SplitRecord { result_map }),
+                        )?;
                     }
                 }
 
@@ -486,13 +478,7 @@ impl SwarmDriver {
                 warn!(
                     "Multiple versions ({num_of_versions}) found for record {data_key_address:?}!"
                 );
-                for sender in senders {
-                    sender
-                        .send(Err(GetRecordError::SplitRecord {
-                            result_map: result_map.clone(),
-                        }))
-                        .map_err(|_| NetworkError::InternalMsgChannelDropped)?;
-                }
+                Self::send_to_all(senders, Err(GetRecordError::SplitRecord { result_map }))?;
 
                 return Ok(());
             }
@@ -500,11 +486,7 @@ impl SwarmDriver {
             // we have no results, bail
             if num_of_versions == 0 {
                 debug!("No versions found for record {data_key_address:?}!");
-                for sender in senders {
-                    sender
-                        .send(Err(GetRecordError::RecordNotFound))
-                        .map_err(|_| NetworkError::InternalMsgChannelDropped)?;
-                }
+                Self::send_to_all(senders, Err(GetRecordError::RecordNotFound))?;
                 return Ok(());
             }
 
@@ -526,11 +508,7 @@ impl SwarmDriver {
                     debug!("Getting record task {query_id:?} completed with step count {:?}, but no copy found.", step.count);
                     Err(GetRecordError::RecordNotFound)
                 };
-                for sender in senders {
-                    sender
-                        .send(result.clone())
-                        .map_err(|_| NetworkError::InternalMsgChannelDropped)?;
-                }
+                Self::send_to_all(senders, result)?;
             }
         } else {
             debug!("Can't locate query task {query_id:?} during GetRecord finished. We might have already returned the result to the sender.");
@@ -569,11 +547,7 @@ impl SwarmDriver {
                 } else {
                     debug!("Get record task {query_id:?} failed with {:?} expected holders not responded, error {get_record_err:?}", cfg.expected_holders);
                 }
-                for sender in senders {
-                    sender
-                        .send(Err(GetRecordError::RecordNotFound))
-                        .map_err(|_| NetworkError::InternalMsgChannelDropped)?;
-                }
+                Self::send_to_all(senders, Err(GetRecordError::RecordNotFound))?;
             }
             kad::GetRecordError::Timeout { key } => {
                 // return error if the entry cannot be found
@@ -598,11 +572,7 @@ impl SwarmDriver {
                     warn!(
                         "Get record task {query_id:?} for {pretty_key:?} timed out with split result map"
                     );
-                    for sender in senders {
-                        sender
-                            .send(Err(GetRecordError::QueryTimeout))
-                            .map_err(|_| NetworkError::InternalMsgChannelDropped)?;
-                    }
+                    Self::send_to_all(senders, Err(GetRecordError::QueryTimeout))?;
 
                     return Ok(());
                 }
@@ -616,12 +586,8 @@ impl SwarmDriver {
                 }
 
                 warn!("Get record task {query_id:?} for {pretty_key:?} returned insufficient responses. {:?} did not return record", cfg.expected_holders);
-                for sender in senders {
-                    // Otherwise report the timeout
-                    sender
-                        .send(Err(GetRecordError::QueryTimeout))
-                        .map_err(|_| NetworkError::InternalMsgChannelDropped)?;
-                }
+                // Otherwise report the timeout
+                Self::send_to_all(senders, Err(GetRecordError::QueryTimeout))?;
             }
         }
 
@@ -639,12 +605,27 @@ impl SwarmDriver {
             Err(GetRecordError::RecordDoesNotMatch(record))
         };
 
+        Self::send_to_all(senders, res)
+    }
+
+    /// Hands `result` to every caller waiting on the query.
+    /// A caller that stopped waiting (its receiver is gone) must not keep the callers behind it from
+    /// their answer: every sender is served, and the dropped channel is reported once all are.
+    fn send_to_all(
+        senders: Vec<oneshot::Sender<std::result::Result<Record, GetRecordError>>>,
+        result: std::result::Result<Record, GetRecordError>,
+    ) -> Result<()> {
+        let mut receiver_dropped = false;
         for sender in senders {
-            sender
-                .send(res.clone())
-                .map_err(|_| NetworkError::InternalMsgChannelDropped)?;
+            if sender.send(result.clone()).is_err() {
+                receiver_dropped = true;
+            }
         }
 
-        Ok(())
+        if receiver_dropped {
+            Err(NetworkError::InternalMsgChannelDropped)
+        } else {
+            Ok(())
+        }
     }
 }
